@@ -54,7 +54,8 @@ func Harness_C04_Algebra() {
 func Harness_C04_Chain() {
 	code := []uint{gen.SHA256, gen.SHA512}[verifrt.Choose("alg", 2)]
 	p := gen.Protocol("p", false)
-	p.MultihashAlgorithms = []uint{code}
+	// the chain's algorithm is the only configured one, or one of two in either order
+	p.MultihashAlgorithms = [][]uint{{code}, {gen.SHA256, gen.SHA512}, {gen.SHA512, gen.SHA256}}[verifrt.Choose("configured", 3)]
 	parser := New(p)
 	upd1, rec1 := gen.NewSigner("upd1"), gen.NewSigner("rec1")
 	suffix := "sfx" + verifrt.AnyAtom("suffix")
